@@ -1,8 +1,12 @@
 import Infretis.Model.RepexProto
 import Infretis.Model.DataFile
+import Infretis.Model.DataFileNp
 /-
 Line protocol of the C04 driver: the replica-exchange protocol (`Repex.handle`) plus the disk of
-`Model/DataFile.lean`.  Every `treat` that succeeds also performs `treatDisk` (rows appended, restart image
+`Model/DataFile.lean`.  `treat` runs `treatOutputChecked` (Model/DataFileNp.lean: numpy's shape check in the "record weights" loop; equal to
+`treatOutput` on every well-formed table, Lemmas/RepexC04Np.lean); when the loop raises, the driver's state becomes
+the one the sampler object is left in (partial credit, nothing written).
+Every `treat` that succeeds also performs `treatDisk` (rows appended, restart image
 replaced) and adds `idleInc` of the locks it leaves to the per-column counts.
 
 extra ops
@@ -15,6 +19,8 @@ extra ops
   restartat <j> <torn> <renamed> make that cleaned disk the current one (the next `init` of a restarted run keeps it)
   restoreload                    `restartSys` on the stop disk chosen by `restartat` (after init/occ/enseng):
                                  clean_data_file, then `restore` of the image into the driver's state
+  setimgfrac <pn> <vec>          replace the `[current.frac]` entry of path <pn> in the restart image on the model's
+                                 disk (and in the stop disk chosen by `restartat`): a hand-edited / malformed file
   fmt <size> <frac> <wts>        `fmtCols` alone
   clean <active> <k> l1 … lk     `cleanLines` alone; line tokens: `#` comment, `#u` unterminated comment,
                                  `r<k>` complete line with first token str(k), `u<k>` the same unterminated,
@@ -95,19 +101,30 @@ def handle4 (x : D4) (toks : List String) : D4 × String :=
     -- a restarted run (last token 1) goes on with the disk it finds
     if rest.getLast? = some "1" then ({ x with d := d', last := none }, ans)
     else ({ d := d', disk := freshDisk, cnt := List.replicate d'.s.n 0, last := none, pending := none }, ans)
-  | "treat" :: _ =>
+  | "treat" :: pin :: st :: k :: rest =>
     let s0 := x.d.s
-    let (d', ans) := handle x.d toks
-    if ans.startsWith "new=" then
-      let s2 := d'.s
-      match fmtRows s2.n (newRows s0 s2), treatDisk x.disk s0 s2 with
-      | .ok ls, .ok disk' =>
-        let cnt' := addCnt x.cnt (idleInc s2.locks)
-        ({ x with d := d', disk := disk', cnt := cnt',
-                  last := some { d0 := x.disk, ls := ls, im := persistD s2, wts := s0.wts ++ s2.wts,
-                                 cnt0 := x.cnt, cnt2 := cnt' } }, ans)
-      | _, _ => ({ x with d := d' }, "err:index")
-    else ({ x with d := d' }, ans)
+    match parseNat? pin, parseNat? k with
+    | some pin, some k =>
+      match takeLists parseRat? k rest, x.d.jobs.find? (·.pin == pin) with
+      | some ws, some job =>
+        match treatOutputChecked s0 job (if st = "ACC" then .acc else .rej) ws (s0.n * s0.n + 4) with
+        | .early er => (x, showErr er)
+        | .late er => (x, showErr er)
+        | .inRecord er sP =>
+          -- the exception leaves the sampler object with the job's ensembles released and partial credit
+          ({ x with d := { x.d with s := sP, jobs := x.d.jobs.filter (·.pin != pin) } }, showErr er)
+        | .done s2 pns iters =>
+          let d' : DState := { x.d with s := s2, jobs := x.d.jobs.filter (·.pin != pin) }
+          let ans := s!"new={showNats pns} sortiters={iters}"
+          match fmtRows s2.n (newRows s0 s2), treatDisk x.disk s0 s2 with
+          | .ok ls, .ok disk' =>
+            let cnt' := addCnt x.cnt (idleInc s2.locks)
+            ({ x with d := d', disk := disk', cnt := cnt',
+                      last := some { d0 := x.disk, ls := ls, im := persistD s2, wts := s0.wts ++ s2.wts,
+                                     cnt0 := x.cnt, cnt2 := cnt' } }, ans)
+          | _, _ => ({ x with d := d' }, "err:index")
+      | _, _ => (x, "bad-op")
+    | _, _ => (x, "bad-op")
   | ["loop"] =>
     -- `loop()` writes the restart file when the step target is reached (state before = state after)
     let (d', ans) := handle x.d toks
@@ -142,6 +159,13 @@ def handle4 (x : D4) (toks : List String) : D4 × String :=
       match restartSys sd cnt s.n s.workers s.tsteps s.occ s.ensEng (fun pn => (wts.lookup pn).getD []) with
       | .error er => (x, showErr er)
       | .ok zr => ({ x with d := { x.d with s := zr.y.s, jobs := zr.y.jobs }, disk := zr.d, cnt := zr.cnt }, "ok")
+  | "setimgfrac" :: pn :: rest =>
+    match parseNat? pn, takeList parseRat? rest with
+    | some pn, some (v, []) =>
+      let upd (im : Image) : Image := { im with frac := (pn, v) :: im.frac.filter (·.1 != pn) }
+      ({ x with disk := { x.disk with img := x.disk.img.map upd },
+                pending := x.pending.map (fun (sd, cnt, wts) => ({ sd with img := sd.img.map upd }, cnt, wts)) }, "ok")
+    | _, _ => (x, "bad-op")
   | "fmt" :: size :: rest =>
     match parseNat? size, takeList parseRat? rest with
     | some size, some (fr, r) =>
